@@ -349,6 +349,13 @@ func (vc *FnVC) applyContractN(fr *frame, st *state, sp *FuncSpec, key string, n
 		vc.assume("true", fmt.Sprintf("(>= %s %s)", na, st.alloc))
 		st.alloc = na
 	}
+	// A callee that returns a fresh object has written that object's fields: the field heaps of the result's struct type
+	// that hold references are re-based (same values on every object that existed before the call, free on the new ones,
+	// typed against the new allocation counter). Without this a contract such as "fresh(ret) && ret.file == f" with a
+	// still fresher f would contradict the typing of the caller's heap term.
+	if !sp.Pure && sp.FreshFields {
+		vc.rebaseFreshFields(st, pre, resType)
+	}
 	vc.boundPendingRefs(st.alloc)
 	res := vc.freshResult(resType, "res:"+shortName(key))
 	if isRefType(resType) {
@@ -703,4 +710,51 @@ func (fr *frame) inChain(f *ssa.Function) bool {
 		}
 	}
 	return false
+}
+
+func specMentionsFresh(sp *FuncSpec) bool {
+	for _, cl := range sp.Clauses {
+		if (cl.Kind == "ensures" || cl.Kind == "ghostensures") && strings.Contains(cl.Src, "fresh(") {
+			return true
+		}
+	}
+	return false
+}
+
+// rebaseFreshFields gives the reference-holding field heaps of the struct(s) a result points to new terms that agree with
+// the old ones on all objects allocated before the call.
+func (vc *FnVC) rebaseFreshFields(st, pre *state, resType types.Type) {
+	var visit func(t types.Type)
+	visit = func(t types.Type) {
+		switch u := t.(type) {
+		case *types.Tuple:
+			for i := 0; i < u.Len(); i++ {
+				visit(u.At(i).Type())
+			}
+			return
+		}
+		pt, ok := t.Underlying().(*types.Pointer)
+		if !ok {
+			return
+		}
+		stt, ok := pt.Elem().Underlying().(*types.Struct)
+		if !ok || vc.sorts.StructOf(pt.Elem()).opaque || isSyncType(pt.Elem()) {
+			return
+		}
+		for i := 0; i < stt.NumFields(); i++ {
+			if !isRefType(stt.Field(i).Type()) {
+				continue
+			}
+			h, _ := vc.fieldHeap(pt.Elem(), i)
+			if vc.hget(st, h) != vc.hget(pre, h) {
+				continue // already havocked by the contract's modifies clause
+			}
+			old := vc.hget(st, h)
+			vc.havocHeap(st, h)
+			vc.assume("true", vc.frameFact(vc.hget(st, h), old, nil, pre.alloc))
+		}
+	}
+	if resType != nil {
+		visit(resType)
+	}
 }
